@@ -905,7 +905,7 @@ def check_tz(prop, tier, seed):
     t0 = time.time()
     wd = workdir(f"{prop}_{tier}")
     build_harness()
-    U, gst, gtr = universes("GenTz.tla", wd, ["ZONES", "FORMATS", "INSTANTS", "TZARGS"])
+    U, gst, gtr = universes("GenTz.tla", wd, ["ZONES", "FORMATS", "INSTANTS", "TZARGS", "WALLCLOCKS", "TEXTOFFSETS"])
     zones, formats, instants, tzargs = U["ZONES"], U["FORMATS"], U["INSTANTS"], U["TZARGS"]
     rnd = random.Random(seed)
     cases = []
@@ -949,6 +949,19 @@ def check_tz(prop, tier, seed):
         else:
             expr = f"{fn}!(\"{line}\")"
         add(fn, expr, False, pinned, {})
+    # the same parsers on wall-clock readings inside the DST gaps / overlaps of the configured zones, with an explicit offset
+    MON = ["Jan", "Feb", "Mar", "Apr", "May", "Jun", "Jul", "Aug", "Sep", "Oct", "Nov", "Dec"]
+    for (y, mo, d, h, mi, sec) in U["WALLCLOCKS"]:
+        for off in U["TEXTOFFSETS"]:
+            clf = f"{d:02d}/{MON[mo - 1]}/{y:04d}:{h:02d}:{mi:02d}:{sec:02d} {off}"
+            iso = f"{y:04d}-{mo:02d}-{d:02d}T{h:02d}:{mi:02d}:{sec:02d}{off[:3]}:{off[3:]}"
+            add("parse_common_log", f"parse_common_log!(\"127.0.0.1 bob frank [{clf}] \\\"GET /a HTTP/1.0\\\" 200 2326\")", False, True, {})
+            add("parse_apache_log", f"parse_apache_log!(\"127.0.0.1 bob frank [{clf}] \\\"GET /a HTTP/1.0\\\" 200 2326\", format: \"common\")", False, True, {})
+            add("parse_apache_log", f"parse_apache_log!(\"127.0.0.1 bob frank [{clf}] \\\"GET /a HTTP/1.0\\\" 200 2326 \\\"-\\\" \\\"curl\\\"\", format: \"combined\")", False, True, {})
+            add("parse_nginx_log", f"parse_nginx_log!(\"172.17.0.1 - alice [{clf}] \\\"POST /x HTTP/1.1\\\" 200 612 \\\"-\\\" \\\"curl\\\"\", format: \"combined\")", False, True, {})
+            add("parse_syslog", f"parse_syslog!(\"<13>1 {iso} host app 1 id - msg\")", False, True, {})
+            add("parse_timestamp", f"parse_timestamp!(\"{clf}\", \"%d/%b/%Y:%T %z\")", False, True, {})
+            add("parse_common_log", f"parse_common_log!(\"127.0.0.1 bob frank [{iso}] \\\"GET /a HTTP/1.0\\\" 200 2326\", timestamp_format: \"%Y-%m-%dT%H:%M:%S%:z\")", False, True, {})
     add("get_timezone_name", "get_timezone_name!()", False, False, {})
     # programs that never touch time at all
     for expr in ["upcase(\"a\")", "1 + 2", "parse_json!(\"{\\\"a\\\": 1}\")", "to_string(1.5)", "split(\"a,b\", \",\")", "md5(\"a\")",
